@@ -845,6 +845,7 @@ fn post_mutate(rng: &mut Rng, m: &mut GenModel, lim: &GenLimits) {
         1 if lim.allow_satisfy => {
             m.sense = Sense::Satisfy;
             m.obj = vec![0.0; n];
+            m.offset = 0.0;
         }
         2 => {
             m.sense = match m.sense {
